@@ -75,7 +75,7 @@ class C02(Sim):
     expected_probes = [
         "nan_row_after_boundary_lock_previous", "nan_first_row_after_restart_with_default", "out_of_range_row_lock_range",
         "one_row_segment", "matrix_setter_single_input", "all_nan_segment", "parity_event", "hybrid_engine",
-        "output_variable_in_antecedent", "vector_setter", "cascade_changed_a_row", "configuration_changed_between_segments", "scalar0d_setter", "mixed_family_output_with_disjoint_rules", "shipped_example_engine",
+        "output_variable_in_antecedent", "vector_setter", "cascade_changed_a_row", "configuration_changed_between_segments", "scalar0d_setter", "mixed_family_output_with_disjoint_rules", "shipped_example_engine", "output_matrix_compared",
     ]
 
     def prepare(self) -> None:
@@ -245,6 +245,7 @@ class C02(Sim):
             b_vals: list[list[tuple]] = []
             b_fuz: list[list[tuple]] = []
             b_deg: list[list[list]] = []
+            b_mat: list = []
             for r in range(k):
                 try:
                     for c, iv in enumerate(B.input_variables):
@@ -256,6 +257,10 @@ class C02(Sim):
                 b_vals.append([cv(ov.value) for ov in B.output_variables])
                 b_fuz.append([cs(ov.fuzzy_value()) for ov in B.output_variables])
                 b_deg.append([[(a.term.name, cv(a.degree)) for a in ov.fuzzy.terms] for ov in B.output_variables])
+                try:
+                    b_mat.append(cv(B.output_values))
+                except Exception:
+                    b_mat.append(None)
             after_restart = False
             if (ea is None) != (eb is None):
                 e = ea or eb
@@ -294,6 +299,10 @@ class C02(Sim):
                     if a_val[r] != bv[0]:
                         if close_enough((a_val[r],), bv, ULP_REL):
                             st.hit("probes.ulp_noise")
+                        elif degrees_close_not_equal(a_deg_j, b_deg[r][j], r, k):
+                            # the activation degrees themselves differ in the last bit: a discontinuous defuzzifier
+                            # (maxima, bisector, 0 * inf) may amplify that; not a mode-dependent divergence of the library
+                            st.hit("probes.ulp_noise_amplified_by_defuzzifier")
                         else:
                             viol = Violation("batch_value_differs_from_row_value", i, output=j, row=r, rows=k, batch=a_val[r],
                                              single=bv[0], setter=setter, defuzzifier=sp["outputs"][j]["defuzzifier"]["cls"])
@@ -309,6 +318,25 @@ class C02(Sim):
                 if viol:
                     break
                 line.append(",".join(a_val))
+            if viol is None and all(ov.enabled for ov in A.output_variables):
+                # the engine-level getter: rows x outputs matrix (observation point named by the property). When the
+                # columns have different lengths it raises (observation D4, not judged); otherwise it must tabulate
+                # exactly the per-variable values already compared above.
+                try:
+                    mat = np.asarray(A.output_values, dtype=float)
+                except Exception:
+                    mat = None
+                    st.hit("outcomes.output_matrix_getter_raised")
+                if mat is not None and mat.shape == (k, len(A.output_variables)) and all(m is not None for m in b_mat):
+                    st.hit("probes.output_matrix_compared")
+                    for r in range(k):
+                        want = tuple(b_vals[r][j][0] for j in range(len(A.output_variables)))
+                        got = cv(mat[r])
+                        if got != want and got != b_mat[r] and not close_enough(got, want, ULP_REL):
+                            if not any(degrees_close_not_equal([(a.term.name, bcast(cv(a.degree), k)) for a in ov.fuzzy.terms], b_deg[r][j], r, k)
+                                       for j, ov in enumerate(A.output_variables)):
+                                viol = Violation("engine_output_matrix_differs_from_rows", i, row=r, rows=k, got=list(got), expected=list(want))
+                                break
             if viol is None:
                 # probes on the cascade (computed from the agreed values)
                 for j, ov in enumerate(A.output_variables):
